@@ -112,8 +112,11 @@ prop("C03", engine="inh", worker="make_inh_trace", prefixes=["C03."], level="mod
 prop("C10", engine="inh", worker="make_inh_trace", prefixes=["C10."], level="model_checking",
      mc=("MxInherit", "MC_MxInherit_quick.cfg", "MC_MxInherit_thorough.cfg"),
      mbt_opts={"deep": True, "checkdefs": True, "handles": True},
-     jobs=lambda tier: [("refmode", dict()), ("inherit", dict())],
-     quick=dict(traces=160, nops=25), thorough=dict(traces=4000, nops=40))
+     # in ItemSpaces the binding shows through what the formulas reading / calling through the
+     # reference return (MxSem.DynRebind inside Den), hence the two value labels
+     jobs=lambda tier: [("refmode", dict()), ("inherit", dict()), ("dyn", dict(_worker="make_dyn_trace"))],
+     quick=dict(traces=192, nops=25), thorough=dict(traces=4800, nops=40),
+     also=["C01.Transparent", "C02.NoStale"])
 prop("C11", engine="inh", worker="make_inh_trace", prefixes=["C11."], level="model_checking",
      mc=("MxInherit", "MC_MxInherit_quick.cfg", "MC_MxInherit_thorough.cfg"),
      mbt_opts={"deep": True, "checkdefs": True, "handles": True},
